@@ -10,7 +10,8 @@ range, a slice index out of range or off a UTF-8 boundary, `unreachable!`, `asse
 
 The readers run in `TM`, a state monad over `Outcome` whose state `Acct` survives errors: `alloc` is the largest
 single allocation *request* made so far (the argument of `Vec::with_capacity`, `vec![0; n]`, `HashMap::with_capacity`,
-counted in elements), `depth` the deepest recursion level entered so far.
+counted in elements; requests whose size is a raw 32-bit field of the input are kept apart in `big`), `depth` the deepest
+recursion level entered so far.
 
 The stack is a runtime fact (DESIGN §3.5): the models take the number of recursion levels the stack can hold as a
 parameter `gas`; running out of `gas` is `panic Site.stack…`.  `stackBudget` is the value the driver uses: inputs nested
@@ -28,7 +29,10 @@ inductive Outcome (α : Type) where
 
 /-- accounting state; survives `err` and `panic` -/
 structure Acct where
+  /-- largest request whose size is a 16-bit quantity of the input (or smaller) -/
   alloc : Nat := 0
+  /-- largest request whose size is a 32-bit field of the input (site 6: `read_u8_vec(length as usize)`) -/
+  big : Nat := 0
   depth : Nat := 0
   deriving Repr, Inhabited, DecidableEq
 
@@ -68,6 +72,9 @@ instance : Monad TM where
 
 /-- record an allocation request of `n` elements -/
 @[inline] def request (n : Nat) : TM Unit := fun st => (.ok (), { st with alloc := max st.alloc n })
+
+/-- record an allocation request whose size is an unchecked 32-bit field of the input -/
+@[inline] def requestBig (n : Nat) : TM Unit := fun st => (.ok (), { st with big := max st.big n })
 
 /-- record that recursion level `d` has been entered -/
 @[inline] def enter (d : Nat) : TM Unit := fun st => (.ok (), { st with depth := max st.depth d })
@@ -110,6 +117,11 @@ def toI32 (n : Nat) : Int := if n < 2147483648 then (n : Int) else (n : Int) - 4
 /-- `read_u8_vec(n)`: `vec![0; n]` (the request is made **before** the bytes are known to exist), then `read_exact` -/
 def takeVec (n : Nat) : Rd Bytes := fun s => do
   request n
+  if s.length < n then fail else pure (s.take n, s.drop n)
+
+/-- `read_u8_vec(length as usize)` where `length` is the `u32` attribute length -/
+def takeVecBig (n : Nat) : Rd Bytes := fun s => do
+  requestBig n
   if s.length < n then fail else pure (s.take n, s.drop n)
 
 /-- `skip(n)`: `SeekFrom::Current(n)` may move past the end; every later read then fails -/
